@@ -46,20 +46,36 @@ def sh(cmd, cwd=None, timeout=None, env=None, check=True):
 
 
 # ----------------------------------------------------------------- harness --
+ASAN_FLAGS = "-Zsanitizer=address --cfg micromap_verif --check-cfg cfg(micromap_verif)"
+
+
 def build_harness(profile):
-    """(Re)build the harness against /repo's current working tree."""
+    """(Re)build the harness against /repo's current working tree. Returns the command prefix
+    that runs it. Profiles: debug, release, asan (release + AddressSanitizer, nightly), miri."""
     lock = os.path.join(HARNESS, "Cargo.lock")
     if not os.path.exists(lock):
         shutil.copy(os.path.join(REPO, "Cargo.lock"), lock)
-    # one target directory per profile, so that the two builds can run side by side
+    # one target directory per profile, so that the builds can run side by side
     tdir = os.path.join(HARNESS, "target", "p-" + profile)
-    cmd = ["cargo", "build", "--offline", "--quiet", "--target-dir", tdir]
-    if profile == "release":
-        cmd.append("--release")
-    p = sh(cmd, cwd=HARNESS, timeout=1200, check=False)
+    env = None
+    if profile == "miri":
+        # built and run by `cargo miri run`; build once here so that later runs only interpret
+        cmd = ["cargo", "+nightly", "miri", "run", "--offline", "--quiet", "--target-dir", tdir, "--", "noop"]
+        sh(cmd, cwd=HARNESS, timeout=2400, check=False, env={"MIRIFLAGS": "-Zmiri-disable-isolation"})
+        return ["cargo", "+nightly", "miri", "run", "--offline", "--quiet", "--target-dir", tdir, "--"]
+    if profile == "asan":
+        cmd = ["cargo", "+nightly", "build", "--offline", "--quiet", "--release", "--target", "x86_64-unknown-linux-gnu", "--target-dir", tdir]
+        env = {"RUSTFLAGS": ASAN_FLAGS}
+        binp = os.path.join(tdir, "x86_64-unknown-linux-gnu", "release", "verif-harness")
+    else:
+        cmd = ["cargo", "build", "--offline", "--quiet", "--target-dir", tdir]
+        if profile == "release":
+            cmd.append("--release")
+        binp = os.path.join(tdir, profile if profile == "release" else "debug", "verif-harness")
+    p = sh(cmd, cwd=HARNESS, timeout=2400, check=False, env=env)
     if p.returncode != 0:
         raise ToolError("harness build failed (%s):\n%s" % (profile, p.stdout[-6000:]))
-    return os.path.join(tdir, profile if profile == "release" else "debug", "verif-harness")
+    return [binp]
 
 
 def build_all(profiles):
@@ -187,20 +203,31 @@ def one_job(pid, tier, seed, job, bins, only=None):
         job = dict(job, walks=0)
     outs = []
     for prof, binp in bins.items():
+        if prof not in job.get("profiles", ["debug", "release"]):
+            continue
         rep_path = os.path.join(WORK, "report-%s-%s.json" % (tag, prof))
         prog = os.path.join(WORK, "progress-%s-%s.txt" % (tag, prof))
-        cmd = [binp, "replay", "--table", table, "--mode", consts["Mode"], "--edges", "--out", rep_path, "--progress", prog,
-               "--walks", str(job.get("walks", 20)), "--steps", str(job.get("steps", 500)), "--seed", str(seed)]
+        ptable = table
+        if prof == "miri":
+            # the interpreter is ~1000x slower: a strided slice of the table
+            lines = open(table).readlines()
+            step = max(1, len(lines) // int(job.get("miri_edges", 250)))
+            ptable = table + ".miri"
+            with open(ptable, "w") as f:
+                f.writelines(lines[(seed % step)::step])
+        cmd = binp + ["replay", "--table", ptable, "--mode", consts["Mode"], "--edges", "--out", rep_path, "--progress", prog,
+               "--walks", str(0 if prof == "miri" else job.get("walks", 20)), "--steps", str(job.get("steps", 500)), "--seed", str(seed)]
         if pair:
-            cmd = [binp, "pairs", "--table", table, "--mode", consts["Mode"], "--out", rep_path, "--progress", prog]
+            cmd = binp + ["pairs", "--table", ptable, "--mode", consts["Mode"], "--out", rep_path, "--progress", prog]
         if micro:
-            cmd = [binp, "micro", "--table", table, "--mode", consts["Mode"], "--adv", "1" if consts["Adv"] else "0", "--out", rep_path, "--progress", prog]
+            cmd = binp + ["micro", "--table", ptable, "--mode", consts["Mode"], "--adv", "1" if consts["Adv"] else "0", "--out", rep_path, "--progress", prog]
         elif job.get("sweep"):
-            cmd = [binp, job["sweep"], "--table", table, "--mode", consts["Mode"], "--out", rep_path, "--progress", prog,
+            cmd = binp + [job["sweep"], "--table", ptable, "--mode", consts["Mode"], "--out", rep_path, "--progress", prog,
                    "--stride", str(job.get("stride", 1)), "--offset", str(seed % job.get("stride", 1)), "--max-leaves", str(job.get("max_leaves", 256))]
         if os.path.exists(rep_path):
             os.remove(rep_path)
-        p = subprocess.run(cmd, stdout=subprocess.PIPE, stderr=subprocess.STDOUT, text=True, timeout=3000)
+        p = subprocess.run(cmd, stdout=subprocess.PIPE, stderr=subprocess.STDOUT, text=True, timeout=6000,
+                           cwd=HARNESS, env=dict(os.environ, MIRIFLAGS="-Zmiri-disable-isolation", ASAN_OPTIONS="detect_leaks=0"))
         if p.returncode != 0 or not os.path.exists(rep_path):
             # the code under test crashed the process: that is data
             case = open(prog).read().strip() if os.path.exists(prog) else "?"
@@ -223,7 +250,7 @@ def one_job(pid, tier, seed, job, bins, only=None):
                 sp = os.path.join(WORK, "report-%s-%s-shapes.json" % (tag, prof))
                 if os.path.exists(sp):
                     os.remove(sp)
-                p2 = subprocess.run([binp, "shapes", "--table", table, "--mode", consts["Mode"], "--out", sp, "--progress", prog],
+                p2 = subprocess.run(binp + ["shapes", "--table", ptable, "--mode", consts["Mode"], "--out", sp, "--progress", prog],
                                     stdout=subprocess.PIPE, stderr=subprocess.STDOUT, text=True, timeout=3000)
                 if p2.returncode != 0 or not os.path.exists(sp):
                     case = open(prog).read().strip() if os.path.exists(prog) else "?"
@@ -272,6 +299,7 @@ def trace_job(pid, tier, seed, job, bins, tag, jkey):
     """Direction B: record long random histories of the real crate, validate them with TLC
     against spec/Trace.tla (the ideal dictionary of Dict.tla)."""
     outs = []
+    bins = {k: v for k, v in bins.items() if k in ("debug", "release")}
     agg = {"tag": tag, "generated": 0, "distinct": 0, "emitted": 0, "wall": 0.0, "consts": {k: job[k] for k in ("mode", "runs", "steps", "caps", "classes")},
            "cmd": "harness trace ... ; TRACE=<file> tlc -workers 1 -config Trace.cfg Trace.tla (POSTCONDITION Accepted)", "ok": True}
     for prof, binp in bins.items():
@@ -280,7 +308,7 @@ def trace_job(pid, tier, seed, job, bins, tag, jkey):
         os.makedirs(d)
         tr = os.path.join(d, "trace.ndjson")
         info = os.path.join(d, "info.json")
-        p = subprocess.run([binp, "trace", "--mode", job["mode"], "--seed", str(seed), "--runs", str(job["runs"]), "--steps", str(job["steps"]),
+        p = subprocess.run(binp + ["trace", "--mode", job["mode"], "--seed", str(seed), "--runs", str(job["runs"]), "--steps", str(job["steps"]),
                             "--caps", ",".join(map(str, job["caps"])), "--classes", str(job["classes"]), "--trace", tr, "--out", info],
                            stdout=subprocess.PIPE, stderr=subprocess.STDOUT, text=True, timeout=3000)
         crashed = p.returncode != 0 or not os.path.exists(info)
@@ -339,6 +367,7 @@ def mapgraph(pid, tier, seed, jobs, profiles):
     Runs TLC per job (model checking + emission), then replays the emitted graph into the
     real crate in every requested build profile; jobs run concurrently. Returns (summary, failures)."""
     from concurrent.futures import ThreadPoolExecutor
+    profiles = sorted(set(profiles) | {p for j in jobs for p in j.get("profiles", [])})
     bins = build_all(profiles)
     summary = {"tlc": [], "replays": [], "states": 0, "transitions": 0, "emitted": 0, "replayed_edges": 0,
                "walk_steps": 0, "drift": 0, "samples": [], "op_counts": {}}
@@ -494,6 +523,15 @@ def jobs_for(pid, tier):
 
     def shaped(js):
         return [dict(j, shapes=True) for j in js]
+
+    def prof(js, *extra):
+        """additional execution environments: asan (release + AddressSanitizer); miri only in the
+        thorough tier and only for the small-capacity graphs (the interpreter is very slow)"""
+        out = []
+        for j in js:
+            ex = [e for e in extra if e != "miri" or (not q and "n3" not in j["tag"] and j.get("consts", {}).get("Cap", 0) <= 2)]
+            out.append(dict(j, profiles=["debug", "release"] + ex))
+        return out
     table = {
         "C01": shaped(core) + tmap,
         "C07": shaped(setcore + both("setbulk", ["bulk"], mode="set", consts={"MaxExtra": 1}, bigconsts={"Vers": [0]})) + tset,
@@ -501,7 +539,7 @@ def jobs_for(pid, tier):
         "C10": both("cursor", ["cursor"]) + core + setcore + tmap + tset,
         "C11": both("entry", ["entry"]) + tmap,
         "C12": core + both("entry", ["entry"]) + setcore + tmap + tset,
-        "C13": both("disjoint", ["disjoint"], consts={"Vers": [0], "MaxKs": 3}, bigconsts={"MaxKs": 4}) + tmap,
+        "C13": prof(both("disjoint", ["disjoint"], consts={"Vers": [0], "MaxKs": 3}, bigconsts={"MaxKs": 4}), "asan", "miri") + tmap,
         "C16": both("bulk", ["bulk"], bigconsts={"MaxExtra": 1}) + both("setbulk", ["bulk"], mode="set", consts={"MaxExtra": 1}, bigconsts={"Vers": [0]}),
         "C18": both("unchecked", ["unchecked"], consts={"MaxKs": 3}, bigconsts={"Vers": [0], "MaxKs": 4}),
         "C19": both("fmt", ["fmt", "cursor"]) + setcore,
@@ -516,16 +554,16 @@ def jobs_for(pid, tier):
                 both("core", ["core"]) + both("cef", ["cursor", "entry", "fmt", "unchecked"], consts={"Vers": [0]})
                 + both("bulkclone", ["bulk", "clone"], bigconsts={"MaxExtra": 1, "Vers": [0]})
                 + setcore + both("setbc", ["bulk", "clone"], mode="set", consts={"MaxExtra": 1}, bigconsts={"Vers": [0]})],
-        "C17": micro_adv + [dict(j, sweep="adversarial", max_leaves=(256 if q else 4096)) for j in
+        "C17": prof(micro_adv, "asan", "miri") + prof([dict(j, sweep="adversarial", max_leaves=(256 if q else 4096)) for j in
                 both("core", ["core"], consts={"Vers": [0]}) + both("ed", ["entry", "disjoint"], consts={"Vers": [0], "Vals": [0]}, bigconsts={"MaxKs": 3})
                 + both("bulkclone", ["bulk", "clone"], consts={"Vers": [0], "Vals": [0], "MaxExtra": 1})
-                + both("setcore", ["core"], mode="set", consts={"Vers": [0]}) + both("setbc", ["bulk"], mode="set", consts={"MaxExtra": 1, "Vers": [0]})],
+                + both("setcore", ["core"], mode="set", consts={"Vers": [0]}) + both("setbc", ["bulk"], mode="set", consts={"MaxExtra": 1, "Vers": [0]})], "asan"),
         "C05": core + both("ecub", ["entry", "cursor", "unchecked", "bulk"], consts={"Vers": [0]}, bigconsts={"MaxExtra": 1}) + setcore
                + both("setbulk", ["bulk"], mode="set", consts={"MaxExtra": 1}, bigconsts={"Vers": [0]}) + tmap + tset,
-        "C02": core + both("cursor", ["cursor"]) + both("eubc", ["entry", "unchecked", "bulk", "clone"], consts={"Vers": [0]}, bigconsts={"MaxExtra": 1})
+        "C02": core + prof(both("cursor", ["cursor"]), "miri") + both("eubc", ["entry", "unchecked", "bulk", "clone"], consts={"Vers": [0]}, bigconsts={"MaxExtra": 1})
                + setcore + both("setbc", ["bulk", "clone"], mode="set", consts={"MaxExtra": 1}, bigconsts={"Vers": [0]}) + tmap + tset,
-        "C03": shaped(core) + both("entry", ["entry"]) + shaped(both("bulk", ["bulk"], bigconsts={"MaxExtra": 1})) + shaped(setcore)
-               + shaped(both("setbulk", ["bulk"], mode="set", consts={"MaxExtra": 1}, bigconsts={"Vers": [0]})),
+        "C03": prof(shaped(core) + both("entry", ["entry"]) + shaped(both("bulk", ["bulk"], bigconsts={"MaxExtra": 1})) + shaped(setcore)
+                    + shaped(both("setbulk", ["bulk"], mode="set", consts={"MaxExtra": 1}, bigconsts={"Vers": [0]})), "asan", "miri"),
     }
     return table.get(pid)
 
@@ -639,7 +677,7 @@ def main():
     try:
         if cmd == "setup":
             os.makedirs(WORK, exist_ok=True)
-            build_all(["debug", "release"])
+            build_all(["debug", "release", "asan"])
             for f in sorted(os.listdir(SPEC)):
                 if f.endswith(".tla"):
                     p = sh(["tla-sany", f], cwd=SPEC, timeout=120, check=False)
